@@ -416,6 +416,53 @@ def check_c17(case, r, fault_step=None):
 # adapter: recorded run -> `runloop` protocol line, and the implementation's outputs in the
 # driver's output format
 
+def check_c07_keeps(case, r):
+    """C07, run level: the concrete strategy's own step (between the end of the base class's event processing and the
+    battery losses) leaves the pending event queue and the event-set connector attributes (limit, cost, target, window,
+    fixed-load / generation entries) exactly as they were — except what the strategy writes by design
+    (`keeps.written_by_design`). Evaluated on every step of a real run in which neither part raised."""
+    import keeps
+    out = []
+    opts = case.get("options", {})
+    skip = keeps.written_by_design(case["strategy"], sub=[opts.get("strategy_deps", "balanced"),
+                                                         opts.get("strategy_opps", "greedy")])
+    for t, rec in enumerate(r.get("trace") or []):
+        a, b = rec.get("post_events"), rec.get("post_strategy")
+        if not a or not b or rec.get("event_error") or "keeps" not in a or "keeps" not in b:
+            continue
+        if r.get("aborted") and t == len(r["trace"]) - 1:
+            continue                      # the failing step: the strategy raised half-way, the run ends here (C17)
+        ka, kb = a["keeps"], b["keeps"]
+        if ka["queue"] != kb["queue"]:
+            out.append(("keeps_queue", "C07:keeps:queue:%s" % case["strategy"],
+                        "step %d: future_events before the strategy's step %s, after %s" % (t, ka["queue"][:6], kb["queue"][:6])))
+        for gid, attrs in ka["attrs"].items():
+            after = kb["attrs"].get(gid)
+            if after is None:
+                out.append(("keeps_attrs", "C07:keeps:connector_removed:%s" % case["strategy"], "step %d: %s" % (t, gid)))
+                continue
+            for k in keeps.ATTRS:
+                if k in skip:
+                    continue
+                if attrs[k] != after[k]:
+                    out.append(("keeps_attrs", "C07:keeps:%s:%s" % (k, case["strategy"]),
+                                "step %d connector %s: %s before the strategy's step %s, after %s"
+                                % (t, gid, k, attrs[k], after[k])))
+        for vid, attrs in ka.get("vehicles", {}).items():
+            after = kb.get("vehicles", {}).get(vid)
+            if after is None:
+                out.append(("keeps_vehicle", "C07:keeps:vehicle_removed:%s" % case["strategy"], "step %d: %s" % (t, vid)))
+                continue
+            for k in keeps.VATTRS:
+                if k not in skip and attrs[k] != after[k]:
+                    out.append(("keeps_vehicle", "C07:keeps:vehicle_%s:%s" % (k, case["strategy"]),
+                                "step %d vehicle %s: %s before the strategy's step %s, after %s"
+                                % (t, vid, k, attrs[k], after[k])))
+        if len(out) >= 3:
+            break
+    return out[:3]
+
+
 def tokf(x):
     return enc(float(x))
 
